@@ -104,6 +104,9 @@ func (e *Enum) setIsIota() {
 		if !member.Const.Exported() {
 			continue // ignore non exported const
 		}
+		if seen[v] { // two exported constants share a value: positions and values do not match
+			return
+		}
 		seen[v] = true
 		if max < v {
 			max = v
